@@ -10,12 +10,16 @@ REQUIRED = [P + n for n in [
     "fastPathFill_exact", "fastPathFill_unsupported",
     # SIMD range programs: tiling, alignment, whole pixels; executed result
     "sse2FillRow_tiles", "mmxFillRow_tiles", "sse2BltRow_tiles", "mmxBltRow_tiles", "fillRow_whole_pixels",
-    "simdFill_exact", "sse2Fill_exact", "mmxFill_exact", "simdFill_unsupported", "simdBlt_declines",
+    "simdFill_exact", "sse2Fill_exact", "mmxFill_exact", "simdFill_unsupported",
+    # blt
+    "simdBlt_exact", "sse2Blt_exact", "mmxBlt_exact", "simdBlt_declines", "simdBlt_false_unchanged", "simdBlt_true",
     # delegation chain
     "implFill_false_unchanged", "implementationFill_false_unchanged", "implementationFill_exact",
     "pixmanFill_true_exact", "pixmanFill_general_declines", "implementationBlt_false_unchanged",
-    # fill_boxes
-    "reduceOp_cases", "rectsToBoxes_exact",
+    "pixmanBlt_true_exact", "pixmanBlt_fast_declines",
+    # colours, fill_boxes
+    "colorToPixel_accepts", "acceptedFormats_bpp", "reduceOp_cases", "fillRegion_exact", "fillRects_exact",
+    "fillBoxes_shortcut_exact", "fillBoxes_fallback", "rectsToBoxes_exact",
 ]]
 
 CONFIGS = [(0, ""), (1, "ssse3 sse2"), (2, "ssse3 sse2 mmx"), (3, "fast mmx sse2 ssse3")]
